@@ -158,7 +158,7 @@ func VerifC10Transition() {
 	w := vfNewWorld(vParam("faults", 1), vParam("cancel", 0) == 1)
 	w.crossDevice = vBool()
 	shape := vParam("shape", 1)
-	old := vtGenTree(shape, 0)
+	old := vtGenTree(vParam("oldshape", shape), 0)
 	var nw *Entry
 	if shape == 1 {
 		vLabel("digest")
